@@ -1,5 +1,17 @@
 /* shared by the C07 editor obligations: an arbitrary WF aggregator, a snapshot of its view, whole-view comparison */
+#if defined(NATIVE_REPLAY)
+/* native replay: the recorded field values of the counterexample */
+#define ND_AGG(u) struct url_aggregator u; memset(&u, 0, sizeof u); W_INIT_##u; __CPROVER_assume(agg_wf(&u))
+#elif defined(WITNESS)
+/* counterexample extraction: every field is an explicit assignment visible in the trace */
+#define ND_AGG(u) struct url_aggregator u; u.base.is_valid = 1; u.base.has_opaque_path = nondet_bool(); u.base.host_type = nondet_int(); u.base.type = nondet_int(); \
+  u.buffer.n = nondet_size(); for (size_t i_ = 0; i_ <= STR_CAP; i_++) u.buffer.d[i_] = nondet_char(); \
+  u.components.protocol_end = nondet_unsigned(); u.components.username_end = nondet_unsigned(); u.components.host_start = nondet_unsigned(); u.components.host_end = nondet_unsigned(); \
+  u.components.port = nondet_unsigned(); u.components.pathname_start = nondet_unsigned(); u.components.search_start = nondet_unsigned(); u.components.hash_start = nondet_unsigned(); \
+  __CPROVER_assume(agg_wf(&u))
+#else
 #define ND_AGG(u) struct url_aggregator u; u.base.is_valid = 1; u.base.has_opaque_path = nondet_bool(); __CPROVER_assume(agg_wf(&u))
+#endif
 #define IN_CLASS(v, c1, c2, c3, c4, c5) wf_no_byte((v).p, 0, (v).n, c1, c2, c3, c4, c5)
 /* every component of the new view equals the old one, except those named in `skip` (bit mask) */
 enum { F_SCHEME = 1, F_AUTH = 2, F_USER = 4, F_PASS = 8, F_HOST = 16, F_PORT = 32, F_DASH = 64, F_PATH = 128, F_SEARCH = 256, F_HASH = 512 };
